@@ -96,6 +96,11 @@ def showState (c : Cluster) (fromMsg fromAck : Nat) : String :=
   let newAcks := c.acked.drop fromAck
   if newAcks.isEmpty then s else s ++ "!" ++ "+".intercalate (newAcks.map fun a => showPayload a.1.payload)
 
+/-- suffix of the state of a heal event: `^i+j` = the nodes to which a prev=(0,0) request was delivered inside it -/
+def showResets (n : Nat) (resets : List NodeId) : String :=
+  let ids := ((List.range (n + 1)).filter fun i => i != 0 && resets.contains i)
+  if ids.isEmpty then "" else "^" ++ "+".intercalate (ids.map toString)
+
 /-- all states + branch tags of a schedule -/
 def runTrace (c : Cluster) : List (Event ⊕ Nat) → List String → List String → Cluster × List String × List String
   | [], states, tags => (c, states.reverse, tags)
@@ -103,8 +108,8 @@ def runTrace (c : Cluster) : List (Event ⊕ Nat) → List String → List Strin
     let (c', t) := step c e
     runTrace c' es (showState c' c.nextMsg c.acked.length :: states) (t ++ tags)
   | .inr k :: es, states, tags =>
-    let c' := heal k 0 c
-    runTrace c' es (showState c' c.nextMsg c.acked.length :: states)
+    let (c', resets) := healR k 0 c []
+    runTrace c' es ((showState c' c.nextMsg c.acked.length ++ showResets c.n resets) :: states)
       ((if recovered c' then "heal:recovered" else "heal:not-recovered") :: tags)
 
 def dedup (l : List String) : List String := l.foldl (fun acc x => if acc.contains x then acc else acc ++ [x]) []
@@ -154,8 +159,17 @@ def parseObsNode (s : String) : Option ObsNode :=
     pure ⟨true, true, role, ← t.toNat?, ← c.toNat?, ← parseLog lg, peers⟩
   | _ => none
 
+/-- a state string without the `^resets` suffix of heal events -/
+def stripMark (s : String) : String := (s.splitOn "^").headD ""
+
+/-- the nodes listed in the `^resets` suffix of a heal state -/
+def parseResetMark (s : String) : List Nat :=
+  match s.splitOn "^" with
+  | [_, m] => (m.splitOn "+").filterMap String.toNat?
+  | _ => []
+
 def parseObsState (s : String) : Option (List ObsNode) :=
-  match ((s.splitOn "!").headD "").splitOn "~" with
+  match (((stripMark s).splitOn "!").headD "").splitOn "~" with
   | nodes :: _ => (nodes.splitOn "/").mapM parseObsNode
   | [] => none
 
@@ -206,7 +220,7 @@ def monitorC04 (_case out : String) : String :=
 /-- (id, prevI, prevT) of every AppendEntries request printed in the trace -/
 def parseAeMsgs (out : String) : List (Nat × Nat × Nat) :=
   (out.splitOn "|").flatMap fun st =>
-    match ((st.splitOn "!").headD "").splitOn "~" with
+    match (((stripMark st).splitOn "!").headD "").splitOn "~" with
     | [_, ms] => (ms.splitOn "+").filterMap fun m =>
         if m.startsWith "A" then
           match (m.drop 1).toString.splitOn "." with
@@ -240,8 +254,8 @@ def crashTarget (ev : String) : Option Nat :=
 
 /-- one event of the implementation's trace; returns the new monitor state or the signature of the violation -/
 def c05Step (s : C05State) (ev : String) (st : List ObsNode) (aes : List (Nat × Nat × Nat))
-    (acks : Option (List Nat)) : Except String C05State := do
-  let reset := isResetDelivery ev aes
+    (acks : Option (List Nat)) (mark : List Nat := []) : Except String C05State := do
+  let resetEv := isResetDelivery ev aes
   -- what every visible node lost since it was last visible
   let mut lostReset := s.lostReset
   let mut lostCrash := s.lostCrash
@@ -250,6 +264,8 @@ def c05Step (s : C05State) (ev : String) (st : List ObsNode) (aes : List (Nat ×
   let mut crashed := s.crashed
   for (nd, i) in st.zipIdx do
     if nd.visible then
+      -- a prev=(0,0) request reached this node: the event itself, or (heal events) the `^` list of the state
+      let reset := resetEv || mark.contains (i + 1)
       match (s.lastVis[i]?).join with
       | some old =>
         let gone := old.filter fun e => !nd.log.contains e
@@ -309,16 +325,16 @@ def c05Step (s : C05State) (ev : String) (st : List ObsNode) (aes : List (Nat ×
 
 /-- tags of the writes answered with success in one state string -/
 def parseAcks (st : String) : List Nat :=
-  match st.splitOn "!" with
+  match (stripMark st).splitOn "!" with
   | [_, a] => (a.splitOn "+").filterMap String.toNat?
   | _ => []
 
 def c05Run (s : C05State) : List String → List (List ObsNode) → List (Nat × Nat × Nat) → Option (List (List Nat)) →
-    Except String C05State
-  | ev :: evs, st :: sts, aes, acks => do
-    let s' ← c05Step s ev st aes (acks.map fun a => a.headD [])
-    c05Run s' evs sts aes (acks.map fun a => a.drop 1)
-  | _, _, _, _ => pure s
+    List (List Nat) → Except String C05State
+  | ev :: evs, st :: sts, aes, acks, marks => do
+    let s' ← c05Step s ev st aes (acks.map fun a => a.headD []) (marks.headD [])
+    c05Run s' evs sts aes (acks.map fun a => a.drop 1) (marks.drop 1)
+  | _, _, _, _, _ => pure s
 
 /-- C05 on the implementation's trace: committed entries (covered by a leader's commit index) are never discarded by
     a node that held them, and every later-term leader holds them.  `skip` when nothing was ever committed. -/
@@ -328,7 +344,8 @@ def monitorC05 (case out : String) : String :=
     let n := (states.head?.map List.length).getD 0
     let init : C05State := { lastVis := List.replicate n (some []), crashed := List.replicate n false, committed := [],
                              lostReset := [], lostCrash := [], prev := [], lships := [] }
-    match c05Run init ((evs.splitOn ";").filter (fun s => !s.isEmpty)) states (parseAeMsgs out) none with
+    match c05Run init ((evs.splitOn ";").filter (fun s => !s.isEmpty)) states (parseAeMsgs out) none
+        ((out.splitOn "|").map parseResetMark) with
     | .ok s => if s.committed.isEmpty then "skip" else "ok"
     | .error sig => "bad " ++ sig
   | none, _ => "bad unparsable-trace"
@@ -363,7 +380,8 @@ def monitorC10 (case out : String) : String :=
     else
       let init : C05State := { lastVis := List.replicate n (some []), crashed := List.replicate n false, committed := [],
                                lostReset := [], lostCrash := [], prev := [], lships := [] }
-      match c05Run init evl states (parseAeMsgs out) (some ((out.splitOn "|").map parseAcks)) with
+      match c05Run init evl states (parseAeMsgs out) (some ((out.splitOn "|").map parseAcks))
+          ((out.splitOn "|").map parseResetMark) with
       | .ok s => if s.committed.isEmpty then "skip" else "ok"
       | .error sig => "bad " ++ sig
   | none, _ => "bad unparsable-trace"
